@@ -20,4 +20,5 @@ EXTRAS = [
     lambda rep, fb, tier: __import__("vf.rules.guards", fromlist=["x"]).rule_division(rep, fb),
     lambda rep, fb, tier: __import__("vf.rules.methodrules", fromlist=["x"]).rule_index_domain(rep, fb),
     lambda rep, fb, tier: __import__("vf.rules.methodrules", fromlist=["x"]).rule_index_content(rep, fb),
+    lambda rep, fb, tier: __import__("vf.rules.lints", fromlist=["x"]).rule_null_branch_deref(rep, fb),
 ]
